@@ -191,6 +191,15 @@ def _snap_obj(c):
     return c
 
 
+def _restore(v, s):
+    """Write a snapshot back into a (modified) array; False if impossible."""
+    if isinstance(v, np.ndarray) and s[0] == "nd" and v.shape == s[3] and \
+            str(v.dtype) == s[2] and v.flags.writeable:
+        v[...] = np.frombuffer(s[1], dtype=s[2]).reshape(s[3])
+        return True
+    return False
+
+
 def snap_diff(a, b):
     """Human readable first difference of two snapshots."""
     if a[0] == "nd" and b[0] == "nd":
@@ -323,6 +332,7 @@ def build_table(cls, not_queries, explicit, random_names=(), prefix="",
 class Family:
     """A class family: how to make inputs, build the object, which queries."""
     name = "?"
+    aliased = ()   # inputs the object is documented / known to keep by reference
 
     def inputs(self, case):       # -> dict of fresh caller-owned inputs
         raise NotImplementedError
@@ -364,6 +374,7 @@ class Session:
         self.held = []       # (query name, reference, canon at return time)
         self.shared_snaps = {}
         self.ok = False
+        self.dead = False    # state undefined after a reported modification
         self.tab = fam.table(case)
 
     def build(self):
@@ -386,13 +397,28 @@ class Session:
         return True
 
     def check_inputs(self, call, exempt):
+        """Compare every caller-owned input with its snapshot.  After a
+        reported modification the input is put back (arrays are restored in
+        place, other inputs are rebuilt) so that one root cause does not
+        show up again as order failures of later queries; if the object keeps
+        a reference to the input its state is undefined and the sequence
+        stops."""
         for k, v in self.inp.items():
             s = snap(v)
-            if s != self.snaps[k]:
-                if self.report and k not in exempt:
-                    self.rec.fail("input/%s:%s:%s" % (self.cls, call, k),
-                                  snap_diff(self.snaps[k], s))
+            if s == self.snaps[k]:
+                continue
+            if k in exempt:
                 self.snaps[k] = s
+                continue
+            if self.report:
+                self.rec.fail("input/%s:%s:%s" % (self.cls, call, k),
+                              snap_diff(self.snaps[k], s))
+            if k in self.fam.aliased:
+                self.dead = True
+                self.snaps[k] = s
+            elif not _restore(v, self.snaps[k]):
+                self.inp[k] = self.fam.inputs(self.case)[k]
+                self.snaps[k] = snap(self.inp[k])
 
     def check_shared(self, call):
         if not self.shared_snaps:
@@ -404,6 +430,9 @@ class Session:
                 if self.report:
                     self.rec.fail("input/%s:%s:%s" % (self.cls, call, k),
                                   snap_diff(self.shared_snaps[k], s))
+                if _restore(v, self.shared_snaps[k]):
+                    continue
+                self.dead = True
             self.shared_snaps[k] = s
 
     def check_held(self, call):
@@ -501,6 +530,9 @@ def run_sequence(fam, case, rec, steps):
         q = s.tab[qname]
         out = s.run(qname, seed + k)
         rec.label("outcome:" + out[0])
+        if s.dead:
+            rec.label("stopped_after_input_modification")
+            break
         if q.rand:
             rec.label("interferer:random")
             prev_name = qname
@@ -848,9 +880,692 @@ def enum_pairs(fam, extra=None):
     return enum
 
 
+
+# ================================================= GeoNetwork (+ its GeoGrid)
+
+GEO_NOT_QUERIES = NETWORK_NOT_QUERIES | {
+    "set_node_weight_type", "randomly_rewire_geomodel_I",
+    "randomly_rewire_geomodel_II", "randomly_rewire_geomodel_III",
+    "set_random_links_by_distance", "save_for_cgv",
+}
+GRID_NOT_QUERIES = {"save", "save_txt", "cache_clear"}
+
+
+def grid_explicit(P="grid."):
+    return [
+        Q(P + "region_indices(region)", P + "region_indices",
+          _meth(P + "region_indices", "$region")),
+        Q(P + "convert_lon_coordinates(lons)", P + "convert_lon_coordinates",
+          _meth(P + "convert_lon_coordinates", "$lons")),
+        Q(P + "node_number(10,20)", P + "node_number",
+          _meth(P + "node_number", 10.0, 20.0)),
+        Q(P + "node_coordinates(1)", P + "node_coordinates",
+          _meth(P + "node_coordinates", 1)),
+        Q(P + "sequence(0)", P + "sequence", _meth(P + "sequence", 0)),
+        Q(P + "geometric_distance_distribution(3)",
+          P + "geometric_distance_distribution",
+          _meth(P + "geometric_distance_distribution", 3)),
+    ]
+
+
+def geo_explicit():
+    ex = network_explicit()
+    for m in ("area_weighted_connectivity_distribution",
+              "inarea_weighted_connectivity_distribution",
+              "outarea_weighted_connectivity_distribution",
+              "area_weighted_connectivity_cumulative_distribution",
+              "inarea_weighted_connectivity_cumulative_distribution",
+              "outarea_weighted_connectivity_cumulative_distribution"):
+        ex.append(Q(m + "(3)", m, _meth(m, 3)))
+    for m in ("geographical_distribution",
+              "geographical_cumulative_distribution"):
+        ex.append(Q(m + "(seq,3)", m, _meth(m, "$seq", 3)))
+    ex += [
+        Q("link_distance_distribution(3)", "link_distance_distribution",
+          _meth("link_distance_distribution", 3)),
+        Q("link_distance_distribution(3,spherical,True)",
+          "link_distance_distribution",
+          _meth("link_distance_distribution", 3, "spherical", True)),
+        Q("cartesian2latlon(pos)", "cartesian2latlon",
+          _meth("cartesian2latlon", "$pos")),
+        Q("latlon2cartesian(lat2,lon2)", "latlon2cartesian",
+          _meth("latlon2cartesian", "$lat2", "$lon2")),
+    ]
+    for m in ("average_link_distance", "inaverage_link_distance",
+              "outaverage_link_distance", "total_link_distance",
+              "intotal_link_distance", "outtotal_link_distance"):
+        ex.append(Q(m + "(True)", m, _meth(m, True)))
+    return ex
+
+
+def geo_table():
+    from pyunicorn.core import GeoNetwork, GeoGrid
+    tab = build_table(GeoNetwork, GEO_NOT_QUERIES, geo_explicit(),
+                      props=NETWORK_PROPS)
+    _with_needs(tab, NETWORK_NEEDS)
+    tab.update(build_table(GeoGrid, GRID_NOT_QUERIES, grid_explicit(),
+                           prefix="grid."))
+    return tab
+
+
+def geo_inputs(case, inp):
+    n = case["g"]["n"]
+    inp["time_seq"] = np.arange(float(case.get("T", 4)))
+    inp["lat"] = np.array(case["lat"], dtype=float)
+    inp["lon"] = np.array(case["lon"], dtype=float)
+    # polygon lon, lat, lon, lat, ... with negative longitudes
+    inp["region"] = np.array([-20.0, -30.0, -20.0, 40.0, 60.0, 40.0, 60.0,
+                              -30.0, -20.0, -30.0])
+    inp["lons"] = np.array([(37.0 * i) % 360 for i in range(n)])
+    inp["seq"] = np.array([((5 * i + 2) % 7) / 2.0 for i in range(n)])
+    inp["pos"] = np.array([0.5, 0.5, np.sqrt(0.5)])
+    inp["lat2"] = np.array(case["lat"], dtype=float)
+    inp["lon2"] = np.array(case["lon"], dtype=float)
+    return inp
+
+
+def make_geogrid(inp):
+    from pyunicorn.core import GeoGrid
+    return GeoGrid(inp["time_seq"], inp["lat"], inp["lon"], silence_level=3)
+
+
+class GeoFamily(Family):
+    name = "GeoNetwork"
+
+    def inputs(self, case):
+        inp = graph_inputs(case)
+        inp["other"] = NETWORK.inputs(case)["other"]
+        return geo_inputs(case, inp)
+
+    def construct(self, case, inp):
+        from pyunicorn.core import GeoNetwork
+        grid = make_geogrid(inp)
+        net = GeoNetwork(grid, adjacency=inp["adjacency"],
+                         directed=case["g"]["directed"],
+                         node_weight_type=case.get("nwt", "surface"),
+                         silence_level=3)
+        if "W" in inp:
+            net.set_link_attribute("la", inp["W"])
+        net.set_node_attribute("na", inp["na"])
+        return net
+
+    def table(self, case):
+        return _applicable(cached_table("GeoNetwork", geo_table),
+                           graph_flags(case))
+
+
+GEO = GeoFamily()
+
+
+def _coords(n, salt):
+    lat = [float(((17 * i + 5 * salt) % 35 - 17) * 5) for i in range(n)]
+    lon = [float(((29 * i + 3 * salt) % 72) * 5) for i in range(n)]
+    return lat, lon
+
+
+def geo_extra(i, base):
+    lat, lon = _coords(base["g"]["n"], i)
+    if i % 2:
+        lon = [v - 180.0 for v in lon]
+    return {"lat": lat, "lon": lon, "nwt": ["surface", "irrigation"][i % 2]}
+
+
+@st.composite
+def geo_cases(draw):
+    directed = draw(st.integers(0, 2)) == 0
+    g = draw(G.graphs(3, 9, directed))
+    n = g["n"]
+    lat = draw(st.lists(st.integers(-17, 17).map(lambda k: 5.0 * k),
+                        min_size=n, max_size=n))
+    if draw(st.booleans()):
+        lon = draw(st.lists(st.integers(0, 71).map(lambda k: 5.0 * k),
+                            min_size=n, max_size=n))
+    else:
+        lon = draw(st.lists(st.integers(-36, 36).map(lambda k: 5.0 * k),
+                            min_size=n, max_size=n))
+    case = {"g": g, "w": [1.0] * n, "lat": lat, "lon": lon,
+            "W": draw(st.one_of(st.none(), G.link_attr(n, directed))),
+            "nwt": draw(st.sampled_from(["surface", "irrigation", None])),
+            "src": [0], "tgt": [1],
+            "seed": draw(st.integers(0, 2 ** 20))}
+    tab = GEO.table(case)
+    # favour what GeoNetwork / GeoGrid add to Network
+    from pyunicorn.core import Network
+    own = sorted(k for k, q in tab.items()
+                 if not hasattr(Network, q.method.split(".")[-1]))
+    names = sorted(tab)
+    step = st.tuples(st.one_of(st.sampled_from(own), st.sampled_from(own),
+                               st.sampled_from(names)),
+                     st.integers(0, 3).map(lambda v: int(v == 0))).map(list)
+    case["seq"] = draw(st.lists(step, min_size=2, max_size=8))
+    return case
+
+
+# ====================================================== InteractingNetworks
+
+def interacting_table():
+    from pyunicorn.core import InteractingNetworks, Network
+    ex = []
+    pub = _public(InteractingNetworks)
+    for name, kind in pub.items():
+        if kind != "method" or hasattr(Network, name) and \
+                name != "global_efficiency":
+            continue
+        ps = [p for p in inspect.signature(
+            getattr(InteractingNetworks, name)).parameters.values()
+            if p.name != "self"]
+        req = [p.name for p in ps if p.default is inspect.Parameter.empty]
+        opt = [p.name for p in ps if p.default is not inspect.Parameter.empty]
+        for tag, lists in (("", ("$l1", "$l2")), ("@arrays", ("$a1", "$a2"))):
+            if req == ["node_list1", "node_list2"]:
+                args = lists
+            elif req == ["node_list"]:
+                args = lists[:1]
+            elif req == ["attribute_name", "node_list1", "node_list2"]:
+                args = ("la",) + lists
+            elif req == ["attribute_name", "node_list"]:
+                args = ("la",) + lists[:1]
+            else:
+                raise HarnessError("InteractingNetworks.%s%s: unknown "
+                                   "signature" % (name, req))
+            needs = ("W",) if "attribute_name" in req else ()
+            if tag and name not in ("cross_path_lengths", "cross_degree",
+                                    "internal_path_lengths",
+                                    "cross_local_clustering",
+                                    "nsi_cross_degree", "subnetwork"):
+                continue
+            ex.append(Q(name + tag, name, _meth(name, *args), needs=needs))
+            if "link_attribute" in opt and not tag:
+                ex.append(Q(name + "(la)", name,
+                            _meth(name, *args, link_attribute="la"),
+                            needs=("W",)))
+    own = build_table(InteractingNetworks, NETWORK_NOT_QUERIES, ex,
+                      skip_auto=set(_public(Network)))
+    # Network queries that share the memoised intermediates (path lengths,
+    # degrees, adjacency) act as interferers / victims as well
+    base = cached_table("Network", network_table)
+    for k in ("path_lengths", "path_lengths(la)", "average_path_length(la)",
+              "closeness(la)", "global_efficiency(la)", "degree", "indegree",
+              "outdegree", "nsi_degree", "betweenness", "local_clustering",
+              "prop:adjacency", "prop:node_weights", "prop:sp_A",
+              "link_attribute(la)", "nsi_closeness", "transitivity"):
+        if k == "global_efficiency(la)":
+            continue   # overridden signature (node lists) in this class
+        own[k] = base[k]
+    return own
+
+
+class InteractingFamily(Family):
+    name = "InteractingNetworks"
+
+    def inputs(self, case):
+        inp = graph_inputs(case)
+        n = case["g"]["n"]
+        side = [s % 3 for s in case["side"][:n]]
+        order = [i for i in case["order"] if i < n]
+        l1 = [i for i in order if side[i] == 0]
+        l2 = [i for i in order if side[i] == 1]
+        rest = [i for i in order if side[i] == 2]
+        if not l1:
+            l1 = [(rest or l2).pop()]
+        if not l2:
+            l2 = [rest.pop() if rest else l1.pop()]
+        inp["l1"], inp["l2"] = l1, l2
+        inp["a1"], inp["a2"] = np.array(l1), np.array(l2)
+        return inp
+
+    def construct(self, case, inp):
+        from pyunicorn.core import InteractingNetworks
+        net = InteractingNetworks(adjacency=inp["adjacency"],
+                                  directed=case["g"]["directed"],
+                                  node_weights=inp["w"], silence_level=3)
+        if "W" in inp:
+            net.set_link_attribute("la", inp["W"])
+        return net
+
+    def table(self, case):
+        return _applicable(cached_table("Interacting", interacting_table),
+                           graph_flags(case))
+
+
+INTERACTING = InteractingFamily()
+
+
+@st.composite
+def interacting_cases(draw):
+    directed = draw(st.integers(0, 3)) == 0
+    g = draw(G.graphs(4, 10, directed))
+    n = g["n"]
+    case = {"g": g, "w": draw(G.node_weights(n)),
+            "W": draw(st.one_of(st.none(), G.link_attr(n, directed),
+                                G.link_attr(n, directed))),
+            "side": draw(st.lists(st.integers(0, 2), min_size=n, max_size=n)),
+            "order": draw(st.permutations(list(range(n)))),
+            "seed": draw(st.integers(0, 2 ** 20))}
+    case["seq"] = draw(_seq_strategy(sorted(INTERACTING.table(case))))
+    return case
+
+
+# ================================================================ ResNetwork
+
+RES_NOT_QUERIES = GEO_NOT_QUERIES | {"update_R", "update_admittance",
+                                     "update_resistances"}
+
+
+def res_table():
+    from pyunicorn.core import ResNetwork, GeoNetwork
+    ex = [
+        Q("effective_resistance(0,2)", "effective_resistance",
+          _meth("effective_resistance", 0, 2)),
+        Q("effective_resistance(1,1)", "effective_resistance",
+          _meth("effective_resistance", 1, 1)),
+        Q("effective_resistance_closeness_centrality(1)",
+          "effective_resistance_closeness_centrality",
+          _meth("effective_resistance_closeness_centrality", 1)),
+        Q("vertex_current_flow_betweenness(1)",
+          "vertex_current_flow_betweenness",
+          _meth("vertex_current_flow_betweenness", 1)),
+        Q("vertex_current_flow_betweenness(0)",
+          "vertex_current_flow_betweenness",
+          _meth("vertex_current_flow_betweenness", 0)),
+    ]
+    own = build_table(ResNetwork, RES_NOT_QUERIES, ex,
+                      skip_auto=set(_public(GeoNetwork)),
+                      props=("resistances", "sparse_Adm", "sparse_R"))
+    base = cached_table("GeoNetwork", geo_table)
+    for k in ("degree", "path_lengths", "betweenness", "prop:adjacency",
+              "prop:node_weights", "nsi_degree", "grid.angular_distance",
+              "closeness", "local_clustering"):
+        own[k] = base[k]
+    return own
+
+
+class ResFamily(Family):
+    name = "ResNetwork"
+
+    def inputs(self, case):
+        g = case["g"]
+        A = G.adj(g)
+        R = np.array(case["R"], dtype=float) * (A != 0)
+        return {"resistances": R, "adjacency": A.astype(np.int8)}
+
+    def construct(self, case, inp):
+        from pyunicorn.core import ResNetwork
+        if case.get("with_adj", True):
+            return ResNetwork(inp["resistances"], adjacency=inp["adjacency"],
+                              silence_level=3)
+        return ResNetwork(inp["resistances"], silence_level=3)
+
+    def table(self, case):
+        return cached_table("ResNetwork", res_table)
+
+
+RES = ResFamily()
+
+
+@st.composite
+def res_cases(draw):
+    g = draw(G.connected_graph(3, 8))
+    n = g["n"]
+    case = {"g": g, "R": draw(G.link_attr(n, False, lo=1, hi=16, denom=4.0)),
+            "with_adj": draw(st.booleans()),
+            "seed": draw(st.integers(0, 2 ** 20))}
+    case["seq"] = draw(_seq_strategy(sorted(RES.table(case))))
+    return case
+
+
+
+# ============================================= shared ClimateData + climate nets
+
+DATA_NOT_QUERIES = {"set_window", "set_global_window", "set_silence_level",
+                    "print_data_info", "cache_clear"}
+CLIMATE_CLASSES = ["Tsonis", "Spearman", "PartialCorrelation", "MutualInfo",
+                   "Havlin", "Hilbert", "CoupledTsonis", "Rainfall",
+                   "EventSeries"]
+
+
+def _climate_net(kind, data, case):
+    import pyunicorn.climate as pc
+    kw = dict(threshold=case.get("thr", 0.3), silence_level=3)
+    winter = bool(case.get("winter"))
+    if kind == "Tsonis":
+        return pc.TsonisClimateNetwork(data, winter_only=winter, **kw)
+    if kind == "Spearman":
+        return pc.SpearmanClimateNetwork(data, winter_only=winter, **kw)
+    if kind == "PartialCorrelation":
+        return pc.PartialCorrelationClimateNetwork(data, winter_only=winter,
+                                                   **kw)
+    if kind == "MutualInfo":
+        return pc.MutualInfoClimateNetwork(data, winter_only=winter, **kw)
+    if kind == "Havlin":
+        return pc.HavlinClimateNetwork(data, max_delay=case.get("delay", 2),
+                                       **kw)
+    if kind == "Hilbert":
+        return pc.HilbertClimateNetwork(data, directed=bool(
+            case.get("hdir", True)), **kw)
+    if kind == "CoupledTsonis":
+        return pc.CoupledTsonisClimateNetwork(data, data, **kw)
+    if kind == "Rainfall":
+        return pc.RainfallClimateNetwork(data, event_threshold=(0, 1), **kw)
+    if kind == "EventSeries":
+        from pyunicorn.climate.eventseries_climatenetwork import \
+            EventSeriesClimateNetwork
+        return EventSeriesClimateNetwork(
+            data, method="ES", taumax=3.0, threshold_method="quantile",
+            threshold_values=0.7, threshold_types="above", silence_level=3)
+    raise HarnessError(kind)
+
+
+def _new_net(kind):
+    """Pseudo query of the SHARED data object: build a derived network and
+    hand out what it computed from the data."""
+    def fn(data, inp):
+        net = _climate_net(kind, data, inp["__case__"])
+        out = {"similarity": net.similarity_measure(),
+               "adjacency": net.adjacency}
+        if kind == "Havlin":
+            out["lag"] = net.correlation_lag()
+        if kind == "Hilbert":
+            out["phase"] = net.phase_shift()
+        return out
+    return fn
+
+
+def data_table():
+    from pyunicorn.climate import ClimateData
+    ex = [
+        Q("indices_selected_phases([0,1])", "indices_selected_phases",
+          _meth("indices_selected_phases", "$phases")),
+        Q("indices_selected_months([0,1,11])", "indices_selected_months",
+          _meth("indices_selected_months", "$months")),
+        Q("anomaly_selected_months([0,1,11])", "anomaly_selected_months",
+          _meth("anomaly_selected_months", "$months")),
+        Q("rescale(arr,float32)", "rescale", _meth("rescale", "$arr",
+                                                   "float32")),
+        Q("rescale(arr,int16)", "rescale", _meth("rescale", "$arr", "int16")),
+        Q("rescale(arr,uint8)", "rescale", _meth("rescale", "$arr", "uint8")),
+        Q("zero_pad_data(arr)", "zero_pad_data", _meth("zero_pad_data",
+                                                       "$arr")),
+        Q("cos_window(arr,0.5)", "cos_window", _meth("cos_window", "$arr",
+                                                     0.5)),
+        Q("next_power_2(5)", "next_power_2", _meth("next_power_2", 5)),
+        Q("normalize_time_series_array(narr)", "normalize_time_series_array",
+          _meth("normalize_time_series_array", "$narr"),
+          inplace_ok=("narr",)),
+    ]
+    pub = _public(ClimateData)
+    statics = {n for n, k in pub.items() if k in ("static", "classmethod")}
+    tab = build_table(ClimateData, DATA_NOT_QUERIES | statics, ex,
+                      random_names=("shuffled_anomaly",),
+                      props=("grid",))
+    for kind in CLIMATE_CLASSES:
+        # Rainfall: the kernel reads the int8 mask through an int* (C20's
+        # defect), its similarity depends on heap contents: interferer only
+        tab["new:" + kind] = Q("new:" + kind, kind, _new_net(kind),
+                               rand=(kind == "Rainfall"),
+                               tol=1e-6 if kind == "Hilbert" else TOL)
+    return tab
+
+
+class DataFamily(Family):
+    """ONE ClimateData object shared by everything that is built from it."""
+    name = "ClimateData"
+
+    def inputs(self, case):
+        T, n = case["T"], case["n"]
+        obs = np.array(case["data"], dtype=float).reshape(T, n) / 8.0
+        arr = np.array(case["data"], dtype=float).reshape(T, n) / 4.0 + 1.0
+        inp = {"observable": obs,
+               "time_seq": np.arange(float(T)),
+               "lat": np.array(case["lat"], dtype=float),
+               "lon": np.array(case["lon"], dtype=float),
+               "phases": [0, 1], "months": [0, 1, 11],
+               "arr": arr, "narr": arr.copy(),
+               "__case__": {k: v for k, v in case.items() if k != "seq"}}
+        if case.get("win") is not None:
+            inp["window"] = dict(case["win"])
+        return inp
+
+    def construct(self, case, inp):
+        from pyunicorn.climate import ClimateData
+        grid = make_geogrid(inp)
+        return ClimateData(inp["observable"], grid,
+                           time_cycle=case["tc"],
+                           anomalies=bool(case.get("anomalies")),
+                           window=inp.get("window"), silence_level=3)
+
+    def shared(self, obj, inp):
+        # pylint: disable=protected-access
+        return {"data.observable()": obj.observable(),
+                "data.anomaly()": obj.anomaly(),
+                "data.phase_mean()": obj.phase_mean(),
+                "data._full_observable": obj._full_observable,
+                "data.grid": obj.grid._grid,
+                "data._full_grid": obj._full_grid._grid}
+
+    def table(self, case):
+        return cached_table("ClimateData", data_table)
+
+
+DATA = DataFamily()
+
+
+@st.composite
+def climate_data_case(draw, n_min=3, n_max=6):
+    tc = draw(st.sampled_from([12, 12, 4, 6]))
+    years = draw(st.integers(2, 3))
+    T = tc * years
+    n = draw(st.integers(n_min, n_max))
+    data = draw(st.lists(st.integers(0, 63), min_size=T * n, max_size=T * n))
+    lat = draw(st.lists(st.integers(-8, 8).map(lambda k: 10.0 * k),
+                        min_size=n, max_size=n, unique=True))
+    lon = draw(st.lists(st.integers(0, 35).map(lambda k: 10.0 * k),
+                        min_size=n, max_size=n))
+    case = {"T": T, "n": n, "tc": tc, "data": data, "lat": lat, "lon": lon,
+            "anomalies": draw(st.integers(0, 3)) == 0,
+            "winter": draw(st.integers(0, 3)) == 0,
+            "hdir": draw(st.booleans()),
+            "delay": draw(st.integers(1, 3)),
+            "thr": draw(st.sampled_from([0.1, 0.3, 0.6])),
+            "win": None, "seed": draw(st.integers(0, 2 ** 20))}
+    if draw(st.integers(0, 3)) == 0:
+        # a window that keeps all nodes and whole years (so that the derived
+        # networks see the same grid size as the data)
+        case["win"] = {"time_min": 0.0, "time_max": float(T - 1 - tc *
+                                                          draw(st.integers(
+                                                              0, years - 2))),
+                       "lat_min": -90.0, "lat_max": 90.0, "lon_min": 0.0,
+                       "lon_max": 360.0}
+    return case
+
+
+@st.composite
+def chain_cases(draw):
+    """All climate network classes from ONE shared ClimateData object, one
+    after another in generated order, mixed with queries of the data."""
+    case = draw(climate_data_case())
+    order = draw(st.permutations(CLIMATE_CLASSES))
+    k = draw(st.integers(2, 6))
+    dq = ["anomaly", "observable", "phase_mean",
+          "anomaly_selected_months([0,1,11])", "shuffled_anomaly"]
+    seq = []
+    for kind in order[:k]:
+        if draw(st.integers(0, 2)) == 0:
+            seq.append([draw(st.sampled_from(dq)), 0])
+        seq.append(["new:" + kind, int(draw(st.integers(0, 3)) == 0)])
+    case["seq"] = seq
+    return case
+
+
+@st.composite
+def data_cases(draw):
+    case = draw(climate_data_case())
+    names = sorted(k for k in DATA.table(case) if not k.startswith("new:"))
+    case["seq"] = draw(_seq_strategy(names))
+    return case
+
+
+# --------------------------------------------- queries of one climate network
+
+CLIMNET_NOT_QUERIES = GEO_NOT_QUERIES | {
+    "set_threshold", "set_link_density", "set_non_local", "set_winter_only",
+    "set_max_delay", "set_directed", "clear_cache",
+    # EventSeries part of EventSeriesClimateNetwork: covered by its own family
+    "event_analysis_significance",
+}
+# arguments of the class specific methods that take caller arrays
+CLIMNET_ARGS = {
+    "link_density_function": (4,),
+    "threshold_from_link_density": (0.5,),
+    "calculate_similarity_measure": ("$anom",),
+    "mutual_information": ("$anom", False),
+    "spearman_corr": ("$mask", "$anomT"),
+    "geographical_distribution": ("$seq", 3),
+    "geographical_cumulative_distribution": ("$seq", 3),
+}
+CLIMNET_BASE = ["path_lengths", "closeness", "degree", "nsi_degree",
+                "prop:adjacency", "prop:node_weights", "betweenness",
+                "grid.angular_distance", "local_clustering",
+                "find_link_attribute(la)", "average_link_distance",
+                "link_distance_distribution(3,spherical,True)"]
+
+
+def climnet_table(kind):
+    def build():
+        import pyunicorn.climate as pc
+        from pyunicorn.core import GeoNetwork, InteractingNetworks
+        from pyunicorn.eventseries import EventSeries
+        from pyunicorn.climate.eventseries_climatenetwork import \
+            EventSeriesClimateNetwork
+        cls = {"Tsonis": pc.TsonisClimateNetwork,
+               "Spearman": pc.SpearmanClimateNetwork,
+               "PartialCorrelation": pc.PartialCorrelationClimateNetwork,
+               "MutualInfo": pc.MutualInfoClimateNetwork,
+               "Havlin": pc.HavlinClimateNetwork,
+               "Hilbert": pc.HilbertClimateNetwork,
+               "CoupledTsonis": pc.CoupledTsonisClimateNetwork,
+               "Rainfall": pc.RainfallClimateNetwork,
+               "EventSeries": EventSeriesClimateNetwork}[kind]
+        base = set(_public(GeoNetwork)) | set(_public(InteractingNetworks)) \
+            | set(_public(EventSeries))
+        pub = _public(cls)
+        ex = []
+        skip = set()
+        for name, k in pub.items():
+            if k not in ("method", "static") or name in CLIMNET_NOT_QUERIES:
+                continue
+            own = name not in base or (
+                kind == "CoupledTsonis" and name in _public(
+                    pc.CoupledClimateNetwork) and
+                name in pc.CoupledClimateNetwork.__dict__)
+            if not own:
+                skip.add(name)
+                continue
+            if name in CLIMNET_ARGS:
+                if name == "calculate_similarity_measure" and \
+                        kind == "CoupledTsonis":
+                    args = ("$anom", "$anom2")
+                else:
+                    args = CLIMNET_ARGS[name]
+                ex.append(Q(name + "(args)", name, _meth(name, *args)))
+            elif name in ("rank_time_series", "calculate_rainfall",
+                          "calculate_top_events", "SmallTestData",
+                          "SmallTestNetwork", "Load", "Model"):
+                if name == "rank_time_series":
+                    ex.append(Q(name + "(anomT)", name,
+                                _meth(name, "$anomT")))
+                elif name == "calculate_rainfall":
+                    ex.append(Q(name + "(anomT,2,1)", name,
+                                _meth(name, "$anomT", 2.0, 1.0)))
+                elif name == "calculate_top_events":
+                    ex.append(Q(name + "(rain,(0,1))", name,
+                                _meth(name, "$rain", (0, 1))))
+                else:
+                    skip.add(name)
+            elif not _zero_arg(cls, name):
+                raise HarnessError("%s.%s: no argument pattern" % (
+                    cls.__name__, name))
+        for name in list(pub):
+            if pub[name] == "static" and name not in [q.method for q in ex]:
+                skip.add(name)
+        tab = build_table(cls, CLIMNET_NOT_QUERIES, ex, skip_auto=skip)
+        geo = cached_table("GeoNetwork", geo_table)
+        for k in CLIMNET_BASE:
+            tab[k] = geo[k]
+        return tab
+    return build
+
+
+class ClimNetFamily(Family):
+    """One climate network; its data object is shared state."""
+    name = "ClimateNetwork"
+
+    def cls_name(self, case):
+        return case["cls"] + "ClimateNetwork"
+
+    def inputs(self, case):
+        inp = DATA.inputs(case)
+        T, n = case["T"], case["n"]
+        k = 2 * n if case["cls"] == "CoupledTsonis" else n
+        obs = inp["observable"]
+        inp["anom"] = (obs - obs.mean(axis=0)) + 0.125 * np.arange(T)[:, None]
+        inp["anom2"] = inp["anom"][:, ::-1].copy()
+        inp["anomT"] = np.ascontiguousarray(inp["anom"].T)
+        inp["rain"] = np.ascontiguousarray(np.abs(inp["anom"].T))
+        inp["mask"] = np.ones((n, T), dtype=bool)
+        inp["seq"] = np.array([((5 * i + 2) % 7) / 2.0 for i in range(k)])
+        return inp
+
+    def construct(self, case, inp):
+        data = DATA.construct(case, inp)
+        net = _climate_net(case["cls"], data, case)
+        net._verif_data = data      # pylint: disable=protected-access
+        return net
+
+    def shared(self, obj, inp):
+        return DATA.shared(obj._verif_data, inp)  # pylint: disable=W0212
+
+    def table(self, case):
+        return cached_table("climnet:" + case["cls"],
+                            climnet_table(case["cls"]))
+
+
+CLIMNET = ClimNetFamily()
+
+
+@st.composite
+def climnet_cases(draw):
+    case = draw(climate_data_case(4, 6))
+    case["cls"] = draw(st.sampled_from(CLIMATE_CLASSES))
+    case["win"] = None
+    case["thr"] = draw(st.sampled_from([0.05, 0.1, 0.3]))
+    names = sorted(CLIMNET.table(case))
+    own = [k for k in names if k not in CLIMNET_BASE]
+    step = st.tuples(st.one_of(st.sampled_from(own), st.sampled_from(own),
+                               st.sampled_from(names)),
+                     st.integers(0, 3).map(lambda v: int(v == 0))).map(list)
+    case["seq"] = draw(st.lists(step, min_size=2, max_size=8))
+    return case
+
+
 SUBCHECKS = [
     SubCheck("network_seq", oracle_sequence(NETWORK), gen=network_cases,
              quick=(4, 60), thorough=(16, 1200)),
     SubCheck("network_pairs", oracle_pair(NETWORK), enum=enum_pairs(NETWORK),
              quick=(8, None), thorough=(16, None), exhaustive=("thorough",)),
+    SubCheck("geo_seq", oracle_sequence(GEO), gen=geo_cases,
+             quick=(4, 50), thorough=(16, 1000)),
+    SubCheck("geo_pairs", oracle_pair(GEO),
+             enum=enum_pairs(GEO, geo_extra),
+             quick=(8, None), thorough=(16, None), exhaustive=("thorough",)),
+    SubCheck("interacting_seq", oracle_sequence(INTERACTING),
+             gen=interacting_cases, quick=(3, 50), thorough=(16, 800)),
+    SubCheck("climate_chain", oracle_sequence(DATA), gen=chain_cases,
+             quick=(6, 30), thorough=(16, 500)),
+    SubCheck("climate_data_seq", oracle_sequence(DATA), gen=data_cases,
+             quick=(2, 60), thorough=(8, 800)),
+    SubCheck("climate_net_seq", oracle_sequence(CLIMNET), gen=climnet_cases,
+             quick=(6, 30), thorough=(16, 500)),
+    SubCheck("resistive_seq", oracle_sequence(RES), gen=res_cases,
+             quick=(2, 40), thorough=(8, 600)),
 ]
